@@ -19,6 +19,7 @@ def _writers_of(prog, adt, field):
 
 
 def L1(ctx):
+    """Writers of the lock-holder fields and their guards (mutex taken only when free; write lock only from None; readers only from None|Read; release clears)."""
     prog = ctx.prog
     n = 0
     # ---- mutex
@@ -305,6 +306,7 @@ def L3(ctx):
 
 
 def L4(ctx):
+    """get_mut / into_inner only forward to the std lock."""
     prog = ctx.prog
     rows = [("sync::mutex::Mutex::<T>::get_mut", "std::sync::Mutex::<T>::get_mut"),
             ("sync::mutex::Mutex::<T>::into_inner", "std::sync::Mutex::<T>::into_inner"),
